@@ -62,6 +62,7 @@ type bundleOpts struct {
 	illTyped   int
 	noFloatFmt bool // avoid float results whose print form differs between backends
 	jsSafe     bool // restrict to the subset both backends define (C04)
+	ij         bool // expressions may read $ij.n / $ij.s (interpreter checks)
 }
 
 func typeOfName(n string) ty {
@@ -178,6 +179,23 @@ func (e *scopedExprGen) lit(t ty) string {
 }
 
 func (e *scopedExprGen) atom(t ty) string {
+	if e.g.opts.illTyped > 0 && e.g.r.Intn(100) < e.g.opts.illTyped {
+		// ill-typed on purpose (interpreter totality checks): an operand of a random type, or a malformed call
+		if e.g.r.Intn(4) == 0 {
+			return illCalls[e.g.r.Intn(len(illCalls))]
+		}
+		t = paramTypes[e.g.r.Intn(len(paramTypes))]
+	}
+	if e.g.opts.ij && e.g.r.Intn(12) == 0 {
+		switch t {
+		case tInt:
+			return "$ij.n"
+		case tStr:
+			return "$ij.s"
+		case tMap:
+			return "$ij"
+		}
+	}
 	if t == tAny {
 		t = scalarTypes[e.g.r.Intn(len(scalarTypes))]
 	}
@@ -249,6 +267,12 @@ func (e *scopedExprGen) expr(depth int, t ty) string {
 	return e.atom(t)
 }
 
+// malformed calls used when bundleOpts.illTyped > 0
+var illCalls = []string{"length()", "length(1, 2)", "min(1)", "max(1, 2, 3)", "range(0, 3, 0)", "range(1, 2, -1)", "range()", "noSuchFunc(1)", "index(1)", "isFirst()", "isLast('x')",
+	"round('x')", "round(1.5, 'x')", "keys([1])", "augmentMap([:], 1)", "strContains(1, 2)", "floor(null)", "ceiling([])", "hasData(1)", "isNonnull()", "7 % 0", "(1 / 0) % 2", "-'x'", "$ij.zz.y", "$ij.s.x", "$ij[0]", "$ij.n[1]"}
+
+var illDirectives = []string{"|truncate", "|truncate:'x'", "|truncate:3,4", "|truncate:-1", "|insertWordBreaks", "|insertWordBreaks:'a'", "|escapeHtml:1", "|noSuchDirective", "|bidiSpanWrap", "|json", "|truncate:1,true,3", "|insertWordBreaks:0", "|insertWordBreaks:-5"}
+
 // ---- commands ----
 
 func (g *bundleGen) stat(k string) { g.stats[k]++ }
@@ -288,6 +312,10 @@ func (g *bundleGen) print(s *gScope, depth int) string {
 			g.stat("directive-chain>=3")
 		}
 		g.stat("directive")
+	}
+	if g.opts.illTyped > 0 && g.r.Intn(100) < g.opts.illTyped/2 {
+		dir += illDirectives[g.r.Intn(len(illDirectives))]
+		g.stat("ill-directive")
 	}
 	switch g.r.Intn(6) {
 	case 0:
